@@ -30,6 +30,17 @@ PARAMS = ('{| ip := sched_params; ip_gen := gen_mode_src; ip_drain_swallows := d
           'ip_stop_swallows := stop_swallows_src; ip_stop_cancels := stop_cancels_src |}')
 
 
+HANGS = [0]
+
+
+def too_many_hangs(obs=None):
+    """Runs that only end when the watchdog fires cost its full time-out each: after a handful of them (each one reported) a
+    stage stops sampling more positions of the same kind."""
+    if obs is not None and obs.get('outcome') == 'hang':
+        HANGS[0] += 1
+    return HANGS[0] >= 4
+
+
 def monitor_interrupted(obs, fired, what):
     if fired >= 1 and obs['outcome'] != 'interrupt':
         kind = {'returned': 'returned-normally', 'laberror': 'raised-laberror', 'keyerror': 'raised-keyerror'}.get(obs['outcome'], 'raised-other')
@@ -59,7 +70,11 @@ def stage_ticks(report, tier, rng, dist):
         dbl = [(k1, k2) for k1 in range(total) for k2 in range(0, 10)]
         points += rng.sample(dbl, min(len(dbl), 25 if tier == 'quick' else 100))
         for k1, k2 in points:
+            if too_many_hangs():
+                dist['stopped_after_repeated_hangs'] = 1
+                break
             obs, oracle, ticker, script = I.run_interrupt(case, k1, k2)
+            too_many_hangs(obs)
             dist['tick_runs'] += 1
             dist[f"tick_outcome={obs['outcome']}"] += 1
             dist[f'tick_fired={ticker.fired}'] += 1
@@ -228,7 +243,11 @@ def stage_lines(report, tier, rng, dist, runner):
                 dist['l2_critical_line_events_targeted'] += len(critical) if (ci == 0 or tier == 'thorough') else min(len(critical), 40)
             targets = sorted(set(rng.sample(range(total), min(total, k)) + extra))
         for tgt in targets:
+            if too_many_hangs():
+                dist['stopped_after_repeated_hangs'] = 1
+                break
             obs, inj = run_lines(case, tgt, runner)
+            too_many_hangs(obs)
             runs += 1
             dist[f"{runner}_line_outcome={obs['outcome']}"] += 1
             def judge(obs, inj):
@@ -258,7 +277,11 @@ def stage_lines(report, tier, rng, dist, runner):
             firsts = rng.sample(critical, min(len(critical), 30 if tier == 'quick' else 80))
             for tgt in firsts:
                 for k2 in rng.sample(range(0, 90), 2 if tier == 'quick' else 4):
+                    if too_many_hangs():
+                        dist['stopped_after_repeated_hangs'] = 1
+                        break
                     obs, inj = run_lines(case, tgt, runner, second=k2)
+                    too_many_hangs(obs)
                     runs += 1
                     dist[f'l2_double_line_fired={inj.fired}'] += 1
                     v = monitor_interrupted(obs, inj.fired, f'interrupts at {inj.where} and {inj.where2} under the l2 runner')
@@ -349,6 +372,35 @@ def run_termination_stage(prop, report, tier, seed, replay=None):
             base_obs, _, ticker, _ = I.run_interrupt(case, None, None)
             cases.append((case, list(range(ticker.n))))
     runs = 0
+    if replay is not None and replay['input'].get('level') == 'line-hang':
+        inp = replay['input']
+        obs, inj = run_lines(inp['case'], inp['line_event'], 'l2')
+        if obs['outcome'] == 'hang':
+            report.violation('C11:no-termination', f"after a KeyboardInterrupt at {inj.where} run_tasks neither returned nor raised: {obs.get('exc')}", inp)
+        report.coverage.update(evaluations=1, distinct_nontrivial=1, rule='replay', distribution={})
+        return
+    line_runs = 0
+    if replay is None:
+        # ... and one at every line boundary of the executor's worker launch (queued tasks are launched from inside wait(): a future
+        # that is lost there is never finished, cancelled or failed, and the drain of the first interrupt waits for it for ever)
+        nn = 4
+        wide = S.gen_case(rng, runner='l2', max_n=4, p_fail=0.0, allow_dups=False)
+        wide.update(n=nn, types=[0] * nn, specs=[['tuple', []] for _ in range(nn)], reads=[[] for _ in range(nn)], behs=['ok'] * nn,
+                    req=[[t, 0] for t in range(nn)], storage='local', bust=False, cont=True, pre=[], max_workers=2, watchdog_s=12)
+        _, inj0 = run_lines(wide, None, 'l2')
+        launch = [i for i, fn in enumerate(inj0.funcs) if fn == '_start_processes']
+        if tier == 'quick' and len(launch) > 90:
+            launch = sorted(rng.sample(launch, 90))
+        hung = 0
+        for tgt in launch:
+            obs, inj = run_lines(wide, tgt, 'l2')
+            line_runs += 1
+            if obs['outcome'] == 'hang':
+                hung += 1
+                report.violation('C11:no-termination', f"after a KeyboardInterrupt at {inj.where} (a queued task being launched) run_tasks neither returned nor "
+                                                       f"raised: {obs.get('exc')}", dict(case=wide, line_event=tgt, where=inj.where, level='line-hang'))
+                if hung >= 2:
+                    break
     for case, ks in cases:
         case = dict(case, watchdog_s=12)
         hung = 0
@@ -362,7 +414,8 @@ def run_termination_stage(prop, report, tier, seed, replay=None):
                 if hung >= 2:
                     break
     report.coverage.update(evaluations=runs, distinct_nontrivial=runs, traces_validated_against_impl=runs, correspondence_mismatches=0,
-                           rule='one KeyboardInterrupt at every tick of small process-runner runs; termination only', distribution={'interrupted_runs': runs})
+                           rule='one KeyboardInterrupt at every tick of small process-runner runs, and at the line boundaries of the executor\'s worker launch; termination only',
+                           distribution={'interrupted_runs': runs, 'interrupted_launch_lines': line_runs})
 
 
 def run(prop, report, tier, seed, replay=None):
